@@ -340,6 +340,19 @@ pub async fn check_replay(dev: &mut Device, rec: &mut Recorder, when: &str, per_
     let backend = dev.kind.name();
     let a = dev.lock().await;
     let target = a.backend_target().await;
+    // the folder name is recorded twice (RenameFolder in the account log,
+    // SetVaultName in the folder log); remember what the account log says
+    let mut account_names: BTreeMap<VaultId, String> = BTreeMap::new();
+    if let Ok(l) = a.account_log().await {
+        let l = l.read().await;
+        let stream = l.event_stream(false).await;
+        pin_mut!(stream);
+        while let Some(Ok((_, ev))) = stream.next().await {
+            if let sos_core::events::AccountEvent::RenameFolder(id, name) = ev {
+                account_names.insert(id, name);
+            }
+        }
+    }
     for (fid, fserved) in &served {
         let key = match a.find_folder_password(fid).await {
             Ok(Some(k)) => k,
@@ -351,6 +364,18 @@ pub async fn check_replay(dev: &mut Device, rec: &mut Recorder, when: &str, per_
             Err(_) => continue,
         };
         let log = log.read().await;
+        // byte-identical events in this log (events are addressed by the
+        // hash of their bytes): a separate root-cause class
+        let (dup_tag, head_unique) = {
+            let leaves = log.tree().leaves().unwrap_or_default();
+            let mut seen = BTreeSet::new();
+            let dups = leaves.iter().any(|l| !seen.insert(*l));
+            let head_unique = leaves
+                .last()
+                .map(|h| leaves.iter().filter(|l| *l == h).count() == 1)
+                .unwrap_or(true);
+            (if dups { "/log_holds_identical_events" } else { "" }, head_unique)
+        };
         let replay = async {
             let v = FolderReducer::new()
                 .reduce(&*log)
@@ -366,10 +391,13 @@ pub async fn check_replay(dev: &mut Device, rec: &mut Recorder, when: &str, per_
         match replay {
             Ok(r) => {
                 if let Some(d) = folder_diff(&r, fserved) {
-                    let class = classify_folder_diff(&r, fserved);
+                    let mut class = classify_folder_diff(&r, fserved);
+                    if class == "name" && account_names.get(fid) == Some(&fserved.name) {
+                        class = "name/account_log_and_folder_log_order_renames_differently".into();
+                    }
                     rec.violate(
                         "C02",
-                        &format!("C02/{backend}/replay_vs_served/{class}"),
+                        &format!("C02/{backend}/replay_vs_served/{class}{dup_tag}"),
                         format!("{} after {when}: folder {fid}: replay(log) expected-side vs served got-side: {d}", dev.name),
                     );
                 }
@@ -399,10 +427,13 @@ pub async fn check_replay(dev: &mut Device, rec: &mut Recorder, when: &str, per_
             Ok(v) => match decrypt_vault(v, &key).await {
                 Ok(m) => {
                     if let Some(d) = folder_diff(&m, fserved) {
-                        let class = classify_folder_diff(&m, fserved);
+                        let mut class = classify_folder_diff(&m, fserved);
+                        if class == "name" && account_names.get(fid) == Some(&fserved.name) {
+                            class = "name/account_log_and_folder_log_order_renames_differently".into();
+                        }
                         rec.violate(
                             "C02",
-                            &format!("C02/{backend}/mirror_vs_served/{class}"),
+                            &format!("C02/{backend}/mirror_vs_served/{class}{dup_tag}"),
                             format!("{} after {when}: folder {fid}: persisted vault expected-side vs served got-side: {d}", dev.name),
                         );
                     }
@@ -421,7 +452,9 @@ pub async fn check_replay(dev: &mut Device, rec: &mut Recorder, when: &str, per_
         }
         // replay up to the last commit must equal the full replay; earlier
         // commits are compared against history by the caller when sampled
-        if per_commit {
+        // (replay-until-commit stops at the FIRST record with that hash, so
+        // the check is only meaningful when the head's hash is unique)
+        if per_commit && head_unique {
             if let Some(last) = log.tree().last_commit() {
                 let r2 = async {
                     let v = FolderReducer::new_until_commit(last)
@@ -436,9 +469,13 @@ pub async fn check_replay(dev: &mut Device, rec: &mut Recorder, when: &str, per_
                 .await;
                 if let Ok(r2) = r2 {
                     if let Some(d) = folder_diff(&r2, fserved) {
+                        let mut class = classify_folder_diff(&r2, fserved);
+                        if class == "name" && account_names.get(fid) == Some(&fserved.name) {
+                            class = "name/account_log_and_folder_log_order_renames_differently".into();
+                        }
                         rec.violate(
                             "C02",
-                            &format!("C02/{backend}/replay_until_head_vs_served"),
+                            &format!("C02/{backend}/replay_until_head_vs_served/{class}"),
                             format!("{} after {when}: folder {fid}: {d}", dev.name),
                         );
                     }
@@ -588,7 +625,8 @@ pub async fn check_search(dev: &mut Device, rec: &mut Recorder, when: &str) {
         .iter()
         .filter(|((f, _), v)| v.3 && Some(*f) != archive)
         .count();
-    if count.favorites() != favs && count.favorites() != favs_non_archived {
+    let _ = favs_non_archived;
+    if count.favorites() != favs {
         rec.violate(
             "C20",
             &format!("C20/{backend}/favorites_counter"),
@@ -596,11 +634,13 @@ pub async fn check_search(dev: &mut Device, rec: &mut Recorder, when: &str) {
         );
     }
     let total_kinds: usize = count.kinds().values().sum();
-    if total_kinds != expect.len() {
+    // kind counters skip the archive folder by design
+    let non_archived = expect.keys().filter(|(f, _)| Some(*f) != archive).count();
+    if total_kinds != non_archived {
         rec.violate(
             "C20",
             &format!("C20/{backend}/kind_counter"),
-            format!("{} after {when}: kind counters sum {} but {} live secrets", dev.name, total_kinds, expect.len()),
+            format!("{} after {when}: kind counters sum {} but {} live secrets outside the archive", dev.name, total_kinds, non_archived),
         );
     }
     // queries by label return exactly the live matches
@@ -1241,7 +1281,22 @@ pub async fn check_union(world: &mut NetWorld, rec: &mut Recorder, did_converge:
             }
             if !extra.is_empty() {
                 let foreign = got.keys().any(|h| !expect.contains_key(h));
-                let class = if foreign { "foreign_event" } else { "event_duplicated" };
+                let mut class = if foreign { "foreign_event".to_string() } else { "event_duplicated".to_string() };
+                // duplicated hashes that two devices committed independently
+                let all_independent = got
+                    .iter()
+                    .filter(|(h, n)| expect.get(*h).copied().unwrap_or(0) < **n)
+                    .all(|(h, _)| {
+                        world
+                            .devices
+                            .iter()
+                            .filter(|d| d.own.logs.get(&k).map(|v| v.iter().any(|r| &r.commit == h)).unwrap_or(false))
+                            .count()
+                            >= 2
+                    });
+                if !foreign && all_independent {
+                    class.push_str("/identical_independent_events_kept_twice");
+                }
                 rec.violate(
                     "C05",
                     &format!("C05/{phase}/{class}/{}", log_kind(&k)),
@@ -1369,4 +1424,114 @@ pub async fn trust_op(world: &mut NetWorld, di: usize, s: &Value, _rec: &mut Rec
         Ok(()) => "ok".into(),
         Err(e) => format!("err:{}", short_err(&e)),
     }
+}
+
+// ------------------------------------------------------ refused requests (C07)
+
+/// C07 at protocol level: a device sends a rewind-and-patch request whose
+/// checkpoint cannot match (forged root / stale proof). Whatever the server
+/// answers, a refusal must leave every server log exactly as it was.
+pub async fn stale_patch_op(world: &mut NetWorld, di: usize, s: &Value, rec: &mut Recorder) -> String {
+    use sos_core::events::EventLogType;
+    use sos_protocol::{PatchRequest, SyncClient};
+    if world.ensure_bridge(di).await.is_err() {
+        return "skip".into();
+    }
+    let before = match server_logs(world).await {
+        Ok(l) => l,
+        Err(_) => return "skip".into(),
+    };
+    // choose a log with enough history on the server
+    let mut names: Vec<&String> = before.iter().filter(|(_, v)| v.len() >= 2).map(|(k, _)| k).collect();
+    names.sort();
+    if names.is_empty() {
+        return "skip".into();
+    }
+    let name = names[(ju64(s, "log") as usize) % names.len()].clone();
+    let slog = &before[&name];
+    let depth = (ju64(s, "depth") as usize % (slog.len() - 1)) + 1; // remove >= 1 records
+    let pos = slog.len() - 1 - depth;
+    let commit = sos_core::commit::CommitHash(slog[pos].commit);
+    let log_type = match name.as_str() {
+        "identity" => EventLogType::Identity,
+        "account" => EventLogType::Account,
+        "device" => EventLogType::Device,
+        "files" => EventLogType::Files,
+        f => match f.strip_prefix("folder:").and_then(|x| x.parse().ok()) {
+            Some(id) => EventLogType::Folder(id),
+            None => return "skip".into(),
+        },
+    };
+    // checkpoint: proof of that position in the server's sequence, then broken
+    let t = tree_from(&slog[..=pos]);
+    let mut proof = match t.head() {
+        Ok(p) => p,
+        Err(_) => return "skip".into(),
+    };
+    let mode = jstr(s, "proof");
+    if mode == "stale" && pos > 0 {
+        // proof of an older head: right shape, wrong state
+        if let Ok(p) = tree_from(&slog[..pos]).head() {
+            proof = p;
+        }
+    } else {
+        proof.root.0[7] ^= 0x5a;
+    }
+    if depth >= 2 {
+        rec.stats.probe("c07.refused_rewind_multi");
+    }
+    let bridge = world.devices[di].bridge.clone().unwrap();
+    // like a real merged patch, the request carries the events it would
+    // rewind (otherwise the server refuses it before rewinding)
+    let patch = match bridge
+        .client
+        .diff(sos_protocol::DiffRequest { log_type, from_hash: Some(commit) })
+        .await
+    {
+        Ok(r) => r.patch,
+        Err(_) => vec![],
+    };
+    let before = match server_logs(world).await {
+        Ok(l) => l,
+        Err(_) => return "skip".into(),
+    };
+    let req = PatchRequest { log_type, commit: Some(commit), proof, patch };
+    let res = bridge.client.patch(req).await;
+    let class = match &res {
+        Ok(r) => match &r.checked_patch {
+            sos_core::events::patch::CheckedPatch::Success(_) => "accepted",
+            sos_core::events::patch::CheckedPatch::Conflict { .. } => "conflict",
+        },
+        Err(_) => "error",
+    };
+    rec.stats.count(&format!("c07.stale_patch.{class}"));
+    let after = server_logs(world).await.unwrap_or_default();
+    if class != "accepted" && after != before {
+        let mut diffs = vec![];
+        for (k, v) in &before {
+            let a = after.get(k).cloned().unwrap_or_default();
+            if &a != v {
+                let same_set = {
+                    let mut x: Vec<_> = v.iter().map(|r| r.commit).collect();
+                    let mut y: Vec<_> = a.iter().map(|r| r.commit).collect();
+                    x.sort();
+                    y.sort();
+                    x == y
+                };
+                diffs.push((log_kind(k).to_string(), same_set, format!("{k}: before [{}] after [{}]",
+                    v.iter().map(|r| hex::encode(&r.commit[..2])).collect::<Vec<_>>().join(","),
+                    a.iter().map(|r| hex::encode(&r.commit[..2])).collect::<Vec<_>>().join(","))));
+            }
+        }
+        for (kind, same_set, d) in diffs {
+            let how = if same_set { "records_reordered" } else { "records_lost_or_added" };
+            rec.violate(
+                "C07",
+                &format!("C07/server/event_patch/refused_but_log_changed/{how}"),
+                format!("rewind-and-patch on {kind} (rewind depth {depth}, checkpoint {mode}) was answered {class}, yet {d}"),
+            );
+        }
+    }
+    // the server must keep serving and stay consistent with its storage
+    class.to_string()
 }
